@@ -2,14 +2,16 @@
 //! it.  DESIGN.md §6 C12.  SimDriver; all host actions are scheduled on the
 //! harness' step counter so the model can work in whole steps.
 
-use crate::engine::{replay_as, Ctx, Outcome, Tier};
+use crate::engine::{normalize, replay_as, take_last_panic, Ctx, Outcome, Tier};
 use proptest::prelude::*;
 use serde::{Deserialize, Serialize};
 use serde_json::Value;
 use std::cell::{Cell, RefCell};
 use std::collections::{BTreeMap, BTreeSet};
-use std::net::SocketAddr;
+use std::net::{IpAddr, Ipv6Addr, SocketAddr, SocketAddrV6};
+use std::pin::Pin;
 use std::rc::Rc;
+use std::task::Poll;
 use std::time::{Duration, SystemTime};
 use tokio::io::{AsyncReadExt, AsyncWriteExt};
 use turmoil::net::{TcpListener, TcpStream};
@@ -41,6 +43,19 @@ pub struct Conn {
     pub target: Target,
     /// give up after this many steps
     pub timeout_steps: Option<u32>,
+    /// Same-host connectors only (`from == 0`): how the connect call is
+    /// ordered against the server's own action (bind / start accepting /
+    /// listener drop / re-bind) of the same step.  0 = free-running task (the
+    /// order is whatever tokio's timer wheel yields, the model allows a step
+    /// of slack), 1 = the server task issues the connect (polls the connect
+    /// future once) right BEFORE its own action of that step, 2 = right AFTER.
+    #[serde(default)]
+    pub order: u8,
+    /// IPv6 only: scope id carried by the destination `SocketAddrV6`
+    /// (`fe80::1%3`).  Only applied while finding F-C12-1 is not recorded as
+    /// "known" (or in the probe scenario).
+    #[serde(default)]
+    pub scope: u32,
 }
 
 #[derive(Clone, Debug, Serialize, Deserialize)]
@@ -58,8 +73,27 @@ pub struct Scenario {
     pub drop_step: Option<u32>,
     pub rebind_step: Option<u32>,
     pub conns: Vec<Conn>,
-    /// (step, kind): 0 hold, 1 release, 2 partition, 3 repair  between c0 and s
+    /// (step, kind): 0 hold, 1 release, 2 partition, 3 repair  between c0 and s;
+    /// any sequence: an entry (t, k) is applied from the Sim handle after step t
+    /// and before step t + 1, entries with the same t in list order
     pub faults: Vec<(u32, u8)>,
+    /// set for the probe scenario of a known finding: avoid rules are off and
+    /// the failure signature gets the prefix `probe:<name>:`
+    #[serde(default)]
+    pub probe: Option<String>,
+}
+
+/// Ids of the C12 findings recorded with status "known" in
+/// known_findings.json (under VERIF_ROOT).  The avoid rule of a finding is
+/// active only while it is listed as "known"; with status "fixed" (or no
+/// entry) the random tier generates the triggering shape and asserts the full
+/// clause.
+pub fn is_known(id: &str) -> bool {
+    static KNOWN: std::sync::OnceLock<Vec<String>> = std::sync::OnceLock::new();
+    KNOWN
+        .get_or_init(|| crate::engine::load_findings().into_iter().filter(|f| f.property == "C12" && f.status == "known").map(|f| f.id).collect())
+        .iter()
+        .any(|k| k == id)
 }
 
 #[derive(Clone, Debug)]
@@ -100,6 +134,56 @@ async fn wait_step(sh: &Shared, k: u64) {
     }
 }
 
+type HeldStreams = Rc<RefCell<Vec<TcpStream>>>;
+
+async fn accept_loop(lis: Rc<TcpListener>, gen: u32, sh: Rc<Shared>, held: HeldStreams) {
+    loop {
+        match lis.accept().await {
+            Ok((mut s, reported_peer)) => {
+                let at = sh.step.get();
+                let (local, peer) = (s.local_addr().unwrap(), s.peer_addr().unwrap());
+                let idx = {
+                    let mut a = sh.accepted.borrow_mut();
+                    a.push(Acc { nonce: None, local, peer, reported_peer, at_step: at, listener_gen: gen });
+                    a.len() - 1
+                };
+                let (sh2, held2) = (sh.clone(), held.clone());
+                tokio::task::spawn_local(async move {
+                    let mut b = [0u8; 4];
+                    let got = tokio::select! {
+                        r = s.read_exact(&mut b) => r.is_ok(),
+                        _ = async { while !sh2.release.get() { tokio::time::sleep(Duration::from_millis(1)).await; } } => false,
+                    };
+                    if got {
+                        sh2.accepted.borrow_mut()[idx].nonce = Some(u32::from_le_bytes(b));
+                    }
+                    if sh2.release.get() {
+                        drop(s);
+                    } else {
+                        held2.borrow_mut().push(s);
+                    }
+                });
+            }
+            Err(e) => {
+                sh.errors.borrow_mut().push(format!("accept: {e}"));
+                break;
+            }
+        }
+    }
+}
+
+/// What the server task does, in this order within one step: connects it
+/// issues itself BEFORE its own action (phase 0), its own actions (phase 1),
+/// connects it issues AFTER them (phase 2).
+#[derive(Clone, Debug)]
+enum Act {
+    Conn(usize, Conn),
+    Bind,
+    StartAccept,
+    DropListener,
+    Rebind,
+}
+
 async fn server(sh: Rc<Shared>, sc: Scenario, own_conns: Vec<(usize, Conn)>) -> turmoil::Result {
     let any = match (sc.listen_localhost, sc.v6) {
         (true, false) => "127.0.0.1",
@@ -107,69 +191,69 @@ async fn server(sh: Rc<Shared>, sc: Scenario, own_conns: Vec<(usize, Conn)>) -> 
         (false, false) => "0.0.0.0",
         (false, true) => "::",
     };
-    for (i, c) in own_conns {
-        tokio::task::spawn_local(connector(sh.clone(), i, c, sc.v6));
-    }
     // holder for accepted streams (dropped when the harness says so)
-    let held: Rc<RefCell<Vec<TcpStream>>> = Default::default();
-    let accept_loop = |lis: Rc<TcpListener>, gen: u32, sh: Rc<Shared>, held: Rc<RefCell<Vec<TcpStream>>>| async move {
-        loop {
-            match lis.accept().await {
-                Ok((mut s, reported_peer)) => {
-                    let at = sh.step.get();
-                    let (local, peer) = (s.local_addr().unwrap(), s.peer_addr().unwrap());
-                    let idx = {
-                        let mut a = sh.accepted.borrow_mut();
-                        a.push(Acc { nonce: None, local, peer, reported_peer, at_step: at, listener_gen: gen });
-                        a.len() - 1
-                    };
-                    let (sh2, held2) = (sh.clone(), held.clone());
-                    tokio::task::spawn_local(async move {
-                        let mut b = [0u8; 4];
-                        let got = tokio::select! {
-                            r = s.read_exact(&mut b) => r.is_ok(),
-                            _ = async { while !sh2.release.get() { tokio::time::sleep(Duration::from_millis(1)).await; } } => false,
-                        };
-                        if got {
-                            sh2.accepted.borrow_mut()[idx].nonce = Some(u32::from_le_bytes(b));
-                        }
-                        if sh2.release.get() {
-                            drop(s);
-                        } else {
-                            held2.borrow_mut().push(s);
-                        }
-                    });
-                }
-                Err(e) => {
-                    sh.errors.borrow_mut().push(format!("accept: {e}"));
-                    break;
-                }
+    let held: HeldStreams = Default::default();
+    let mut agenda: Vec<(u32, u8, usize, Act)> = Vec::new();
+    for (i, c) in own_conns {
+        match c.order {
+            0 => {
+                tokio::task::spawn_local(connector(sh.clone(), i, c, sc.v6));
             }
+            1 => agenda.push((c.step, 0, i, Act::Conn(i, c))),
+            _ => agenda.push((c.step, 2, i, Act::Conn(i, c))),
         }
-    };
-    wait_step(&sh, sc.bind_step as u64).await;
-    let lis = Rc::new(TcpListener::bind((any, PORT)).await?);
-    let accepts_first = sc.drop_step.map(|d| sc.accept_step.max(sc.bind_step) < d).unwrap_or(true);
-    let mut task = None;
+    }
+    let acc_step = sc.accept_step.max(sc.bind_step);
+    let accepts_first = sc.drop_step.map(|d| acc_step < d).unwrap_or(true);
+    agenda.push((sc.bind_step, 1, 0, Act::Bind));
     if accepts_first {
-        wait_step(&sh, sc.accept_step.max(sc.bind_step) as u64).await;
-        task = Some(tokio::task::spawn_local(accept_loop(lis.clone(), 0, sh.clone(), held.clone())));
+        agenda.push((acc_step, 1, 1, Act::StartAccept));
     }
     if let Some(d) = sc.drop_step {
-        wait_step(&sh, d as u64).await;
-        if let Some(task) = task {
-            task.abort();
-            let _ = task.await;
-        }
-        drop(lis);
+        agenda.push((d, 1, 2, Act::DropListener));
         if let Some(r) = sc.rebind_step {
-            wait_step(&sh, r as u64).await;
-            match TcpListener::bind((any, PORT)).await {
+            agenda.push((r, 1, 3, Act::Rebind));
+        }
+    }
+    agenda.sort_by_key(|x| (x.0, x.1, x.2));
+    let mut lis: Option<Rc<TcpListener>> = None;
+    let mut task: Option<tokio::task::JoinHandle<()>> = None;
+    for (step, _, _, act) in agenda {
+        wait_step(&sh, step as u64).await;
+        match act {
+            Act::Conn(i, c) => {
+                // run the connector up to its first suspension point (the
+                // connect call has registered the socket and sent the SYN by
+                // then) inside this task, so that its order against the
+                // server's own action of this step is exactly the agenda's;
+                // then let it continue as a task of its own.
+                let mut fut: Pin<Box<dyn std::future::Future<Output = ()>>> = Box::pin(connector(sh.clone(), i, c, sc.v6));
+                let done = std::future::poll_fn(|cx| Poll::Ready(fut.as_mut().poll(cx).is_ready())).await;
+                if !done {
+                    tokio::task::spawn_local(fut);
+                }
+            }
+            Act::Bind => {
+                lis = Some(Rc::new(TcpListener::bind((any, PORT)).await?));
+            }
+            Act::StartAccept => {
+                if let Some(l) = &lis {
+                    task = Some(tokio::task::spawn_local(accept_loop(l.clone(), 0, sh.clone(), held.clone())));
+                }
+            }
+            Act::DropListener => {
+                if let Some(task) = task.take() {
+                    task.abort();
+                    let _ = task.await;
+                }
+                drop(lis.take());
+            }
+            Act::Rebind => match TcpListener::bind((any, PORT)).await {
                 Ok(l2) => {
                     tokio::task::spawn_local(accept_loop(Rc::new(l2), 1, sh.clone(), held.clone()));
                 }
                 Err(e) => sh.errors.borrow_mut().push(format!("re-bind after drop failed: {:?}", e.kind())),
-            }
+            },
         }
     }
     while !sh.release.get() {
@@ -181,6 +265,8 @@ async fn server(sh: Rc<Shared>, sc: Scenario, own_conns: Vec<(usize, Conn)>) -> 
     for h in ["s", "c0", "c1"] {
         sh.counts.borrow_mut().insert(h.to_string(), turmoil::established_tcp_stream_count_on(h));
     }
+    // keep the listener until the host is torn down
+    let _keep = lis;
     std::future::pending().await
 }
 
@@ -188,6 +274,19 @@ async fn connector(sh: Rc<Shared>, i: usize, c: Conn, v6: bool) {
     wait_step(&sh, c.step as u64).await;
     sh.started.borrow_mut().insert(i, sh.step.get());
     let fut = async {
+        if v6 && c.scope != 0 {
+            // the same destinations, spelled as a SocketAddrV6 with a scope id
+            let ip = match c.target {
+                Target::Server | Target::DeadPort => match turmoil::lookup("s") {
+                    IpAddr::V6(a) => a,
+                    IpAddr::V4(_) => unreachable!("v6 simulation"),
+                },
+                Target::Loopback => Ipv6Addr::LOCALHOST,
+                Target::Nowhere => "fe80::dead:1".parse().unwrap(),
+            };
+            let port = if c.target == Target::DeadPort { PORT + 1 } else { PORT };
+            return TcpStream::connect(SocketAddr::V6(SocketAddrV6::new(ip, port, 0, c.scope))).await;
+        }
         match c.target {
             Target::Server => TcpStream::connect(("s", PORT)).await,
             Target::Loopback => TcpStream::connect((if v6 { "::1" } else { "127.0.0.1" }, PORT)).await,
@@ -223,8 +322,183 @@ async fn connector(sh: Rc<Shared>, i: usize, c: Conn, v6: bool) {
     }
 }
 
+// ---------------------------------------------------------------- link model
+
+/// What the documentation lets us know about one of the two link conditions.
+#[derive(Clone, Copy, PartialEq, Eq, Debug)]
+enum Tri {
+    No,
+    Yes,
+    Maybe,
+}
+
+/// Fate of a connection request sent from c0 to s, as far as the property text
+/// and the rustdoc of hold / release / partition / repair determine it.
+#[derive(Clone, Copy, PartialEq, Eq, Debug)]
+enum Fate {
+    /// reaches the server host at the start of its turn in a step in lo..=hi
+    Delivered { lo: u64, hi: u64 },
+    /// dropped by a partition; the connector can see the refusal from step `at`
+    Dropped { at: u64 },
+    /// the documentation does not decide it
+    Uncertain,
+}
+
+/// `ops` = (t, kind) in application order, applied after step t and before
+/// step t + 1.  The request is sent during step `a`; on a healthy link it
+/// stays on the link (where a hold / partition catches it) at least until
+/// after step a+lo_off-1 and at most until after step a+hi_off-1, and reaches
+/// the server no earlier than step a+first_off.  (A request with latency 0 is
+/// off the link at once: lo_off = 0.)
+///
+/// Documented facts used: `partition` = "all messages sent between them are
+/// dropped" (and the property text: a connect across a partitioned direction
+/// is refused instead of hanging) — this holds for a request that is in
+/// flight *or parked by a hold* when the partition is set; `hold` = messages
+/// are held "until release is called"; `release` = "all held messages are
+/// immediately delivered"; `repair` ends a partition.  Left open by the
+/// documentation (=> Maybe / Uncertain): whether hold survives partition or
+/// repair, whether a partition survives hold or release, whether repair lets
+/// parked messages go.
+fn syn_fate(ops: &[(u64, u8)], a: u64, lo_off: u64, hi_off: u64, first_off: u64) -> (Fate, &'static str) {
+    #[derive(Clone, Copy)]
+    enum St {
+        NotSent,
+        Flight(u64, u64),
+        Parked,
+    }
+    let (mut held, mut cut) = (Tri::No, Tri::No);
+    let mut st = St::NotSent;
+    let mut tag: &'static str = "plain";
+    // "immediately delivered" leaves open whether a released message can
+    // still be caught by a hold / partition issued at the same instant
+    let mut released_at: Option<u64> = None;
+    let send = |held: Tri, cut: Tri, tag: &mut &'static str| -> Result<St, (Fate, &'static str)> {
+        match (held, cut) {
+            (Tri::No, Tri::No) => Ok(St::Flight(a + lo_off, a + hi_off)),
+            (Tri::Yes, Tri::No) => {
+                *tag = "sent-into-hold";
+                Ok(St::Parked)
+            }
+            (Tri::No, Tri::Yes) => Err((Fate::Dropped { at: a }, "sent-into-partition")),
+            _ => Err((Fate::Uncertain, "sent-into-undocumented-link-state")),
+        }
+    };
+    for &(t, k) in ops {
+        if t >= a {
+            if let St::NotSent = st {
+                st = match send(held, cut, &mut tag) {
+                    Ok(s) => s,
+                    Err(e) => return e,
+                };
+            }
+            match st {
+                St::Flight(lo, hi) => {
+                    if t >= hi {
+                        // certainly delivered before this op
+                    } else if released_at == Some(t) && matches!(k % 4, 0 | 2) {
+                        return (Fate::Uncertain, "hold-or-partition-at-the-instant-of-release");
+                    } else if t < lo {
+                        match k % 4 {
+                            0 => {
+                                st = St::Parked;
+                                tag = "held-in-flight";
+                            }
+                            2 => return (Fate::Dropped { at: t + 1 }, if tag == "plain" { "partitioned-in-flight" } else { "released-then-partitioned" }),
+                            _ => {}
+                        }
+                    } else if matches!(k % 4, 0 | 2) {
+                        return (Fate::Uncertain, "hold-or-partition-while-maybe-delivered");
+                    }
+                }
+                St::Parked => match k % 4 {
+                    0 => {}
+                    1 => {
+                        st = St::Flight(t + 1, t + 1);
+                        released_at = Some(t);
+                        tag = "parked-then-released";
+                    }
+                    2 => return (Fate::Dropped { at: t + 1 }, "parked-then-partitioned"),
+                    _ => return (Fate::Uncertain, "repair-while-parked"),
+                },
+                St::NotSent => unreachable!(),
+            }
+        }
+        match k % 4 {
+            0 => {
+                held = Tri::Yes;
+                if cut == Tri::Yes {
+                    cut = Tri::Maybe;
+                }
+            }
+            1 => {
+                held = Tri::No;
+                if cut == Tri::Yes {
+                    cut = Tri::Maybe;
+                }
+            }
+            2 => {
+                cut = Tri::Yes;
+                if held == Tri::Yes {
+                    held = Tri::Maybe;
+                }
+            }
+            _ => {
+                cut = Tri::No;
+                if held == Tri::Yes {
+                    held = Tri::Maybe;
+                }
+            }
+        }
+    }
+    if let St::NotSent = st {
+        st = match send(held, cut, &mut tag) {
+            Ok(s) => s,
+            Err(e) => return e,
+        };
+    }
+    match st {
+        St::Flight(lo, hi) => (Fate::Delivered { lo: lo.max(a + first_off), hi }, tag),
+        _ => (Fate::Uncertain, "parked-at-the-end"),
+    }
+}
+
+fn norm(a: SocketAddr) -> SocketAddr {
+    SocketAddr::new(a.ip(), a.port())
+}
+
+/// One simulation step; a panic inside turmoil (host code runs inside
+/// `Sim::step`) becomes a failure with a location-free signature.
+fn guarded_step(sim: &mut turmoil::Sim) -> Result<(), (String, String)> {
+    match std::panic::catch_unwind(std::panic::AssertUnwindSafe(|| sim.step())) {
+        Ok(Ok(_)) => Ok(()),
+        Ok(Err(e)) => Err(("step-error".to_string(), format!("{e}"))),
+        Err(_) => {
+            let msg = take_last_panic().unwrap_or_else(|| "<unknown panic>".into());
+            let short = msg.split(" @ ").next().unwrap_or("").to_string();
+            Err((format!("panic-in-step: {}", normalize(&short)), msg))
+        }
+    }
+}
+
 pub fn run(sc: &Scenario) -> Outcome {
+    let mut out = run_inner(sc);
+    if let (Some(p), Some(f)) = (&sc.probe, out.failure.as_mut()) {
+        f.signature = format!("probe:{p}:{}", f.signature);
+    }
+    out
+}
+
+fn run_inner(sc0: &Scenario) -> Outcome {
     let mut out = Outcome::ok();
+    // hand-written / fuzzed timelines: keep bind < drop < re-bind
+    let mut sc = sc0.clone();
+    sc.drop_step = sc.drop_step.map(|d| d.max(sc.bind_step + 1));
+    sc.rebind_step = match (sc.drop_step, sc.rebind_step) {
+        (Some(d), Some(r)) => Some(r.max(d + 1)),
+        _ => None,
+    };
+    let sc = &sc;
     let tick = sc.tick_ms.max(1) as u64;
     let lat_min = sc.lat_min.min(sc.lat_max) as u64;
     let lat_max = sc.lat_max.max(sc.lat_min) as u64;
@@ -243,6 +517,10 @@ pub fn run(sc: &Scenario) -> Outcome {
         b.enable_random_order();
     }
     let mut sim = b.build();
+    // F-C12-1 (a destination SocketAddrV6 with a scope id makes accept()
+    // panic): avoided while recorded as "known", asserted otherwise
+    let scope_on = sc.v6 && (sc.probe.is_some() || !is_known("F-C12-1"));
+    let mut scope_avoided = false;
     let conns: Vec<(usize, Conn)> = sc
         .conns
         .iter()
@@ -253,9 +531,20 @@ pub fn run(sc: &Scenario) -> Outcome {
             if c.target == Target::Loopback && c.from != 0 {
                 c.target = Target::Server;
             }
+            c.order = if c.from == 0 { c.order % 3 } else { 0 };
+            if !sc.v6 {
+                c.scope = 0;
+            }
+            if c.scope != 0 && !scope_on {
+                c.scope = 0;
+                scope_avoided = true;
+            }
             (i, c)
         })
         .collect();
+    if scope_avoided {
+        out.exclude("F-C12-1");
+    }
     {
         let (sh, sc2) = (sh.clone(), sc.clone());
         let own: Vec<(usize, Conn)> = conns.iter().filter(|(_, c)| c.from == 0).cloned().collect();
@@ -283,64 +572,53 @@ pub fn run(sc: &Scenario) -> Outcome {
         .max()
         .unwrap_or(0) as u64;
     let settle = lat_max.div_ceil(tick) + 4;
-    let mut held = false;
-    let mut cut_windows: Vec<(u64, u64)> = Vec::new();
-    let mut cut_from: Option<u64> = None;
-    let mut fault_used = false;
+    // the link-control history exactly as applied (time order, list order within one instant)
+    let mut ops: Vec<(u64, u8)> = sc.faults.iter().map(|(t, k)| (*t as u64, k % 4)).collect();
+    ops.sort_by_key(|o| o.0);
+    let fault_used = !ops.is_empty();
     let run_until = last_event + 2 * settle + 2;
+    let mut next_op = 0usize;
     for done in 0..run_until {
-        for (at, k) in &sc.faults {
-            if *at as u64 == done {
-                fault_used = true;
-                match k % 4 {
-                    0 => {
-                        sim.hold("c0", "s");
-                        held = true;
-                    }
-                    1 => {
-                        sim.release("c0", "s");
-                        held = false;
-                    }
-                    2 => {
-                        sim.partition("c0", "s");
-                        if cut_from.is_none() {
-                            cut_from = Some(done + 1);
-                        }
-                    }
-                    _ => {
-                        sim.repair("c0", "s");
-                        if let Some(f) = cut_from.take() {
-                            cut_windows.push((f, done));
-                        }
-                    }
-                }
+        while next_op < ops.len() && ops[next_op].0 == done {
+            match ops[next_op].1 {
+                0 => sim.hold("c0", "s"),
+                1 => sim.release("c0", "s"),
+                2 => sim.partition("c0", "s"),
+                _ => sim.repair("c0", "s"),
             }
+            next_op += 1;
         }
         sh.step.set(done + 1);
-        if let Err(e) = sim.step() {
-            out.fail("step-error", format!("{e}"));
+        if let Err((sig, detail)) = guarded_step(&mut sim) {
+            out.fail(sig, detail);
             return out;
         }
     }
-    if held {
-        sim.release("c0", "s");
-    }
-    if let Some(f) = cut_from.take() {
+    // leave the link healthy: end a partition, then let parked messages go
+    if fault_used {
         sim.repair("c0", "s");
-        cut_windows.push((f, run_until));
+        sim.release("c0", "s");
+        ops.push((run_until, 3));
+        ops.push((run_until, 1));
     }
     let mut step_no = run_until;
     for _ in 0..(2 * settle) {
         step_no += 1;
         sh.step.set(step_no);
-        let _ = sim.step();
+        if let Err((sig, detail)) = guarded_step(&mut sim) {
+            out.fail(sig, detail);
+            return out;
+        }
     }
     // release everything and collect the stream counts
     sh.release.set(true);
     for _ in 0..(2 * settle + lat_max / tick + 6) {
         step_no += 1;
         sh.step.set(step_no);
-        let _ = sim.step();
+        if let Err((sig, detail)) = guarded_step(&mut sim) {
+            out.fail(sig, detail);
+            return out;
+        }
     }
     if !sh.errors.borrow().is_empty() {
         out.fail("unexpected-server-error", format!("{:?}", sh.errors.borrow()));
@@ -351,8 +629,12 @@ pub fn run(sc: &Scenario) -> Outcome {
     let results = sh.results.borrow();
     let accepted = sh.accepted.borrow();
     let started = sh.started.borrow();
-    let exact = lat_min == lat_max && lat_min >= 1 && !fault_used && !sc.random_order;
+    let exact_remote = lat_min == lat_max && lat_min >= 1 && !sc.random_order;
     let ceil_l = lat_max.div_ceil(tick);
+    let lo_off = lat_min.div_ceil(tick);
+    let hi_off = ceil_l.max(1);
+    // fixed host order: s runs before c0 / c1, a request sent in step a is seen by s in step a + 1 at the earliest
+    let first_off = if sc.random_order { 0 } else { 1 };
     let mut kinds = BTreeSet::new();
     let mut nonce_seen: BTreeMap<u32, usize> = BTreeMap::new();
     let mut phantom = 0usize;
@@ -371,26 +653,39 @@ pub fn run(sc: &Scenario) -> Outcome {
             return out;
         }
     }
+    // fate of every remote request on its link (only c0 <-> s has a history)
+    let no_ops: Vec<(u64, u8)> = Vec::new();
+    let mut fates: BTreeMap<usize, (Fate, &'static str)> = BTreeMap::new();
+    for (i, c) in &conns {
+        if c.from != 0 && matches!(c.target, Target::Server | Target::DeadPort) {
+            if let Some(a) = started.get(i) {
+                let f = syn_fate(if c.from == 1 { &ops } else { &no_ops }, *a, lo_off, hi_off, first_off);
+                if c.from == 1 && fault_used {
+                    out.label(format!("syn:{}", f.1));
+                }
+                fates.insert(*i, f);
+            }
+        }
+    }
     let cancelled: Vec<usize> = conns.iter().filter(|(i, _)| results.get(i).map(|r| r.kind == "TimedOut").unwrap_or(false)).map(|(i, _)| *i).collect();
     let mut paired_phantoms = 0usize;
-    let paired_by_addr: BTreeSet<u64> = BTreeSet::new();
+    let mut paired_by_addr: BTreeSet<usize> = BTreeSet::new();
     for (i, c) in &conns {
         let Some(r) = results.get(i) else {
             // never returned
-            let cut = c.from == 1 && started.get(i).map(|s| cut_windows.iter().any(|(a, b)| s >= a && s <= b)).unwrap_or(false);
-            let _ = cut;
             out.fail(
                 "connect-never-returned",
-                format!("connector {i} {c:?} started at step {:?} still pending after {step_no} steps (links healthy at the end)", started.get(i)),
+                format!("connector {i} {c:?} started at step {:?} still pending after {step_no} steps (link history {ops:?}, healthy at the end; fate {:?})", started.get(i), fates.get(i)),
             );
             return out;
         };
         kinds.insert(if r.ok { "ok".to_string() } else { r.kind.clone() });
+        let give_up = c.timeout_steps.map(|w| started[i] + w as u64);
         if r.ok {
             let by_nonce = nonce_seen.get(&(*i as u32)).copied();
             // under a hold/partition the nonce itself may be lost or delayed: pair by address then
             let by_addr = if fault_used {
-                accepted.iter().position(|a| a.nonce.is_none() && Some(a.peer) == r.local && !paired_by_addr.contains(&a.at_step))
+                accepted.iter().enumerate().position(|(k, a)| a.nonce.is_none() && Some(norm(a.peer)) == r.local.map(norm) && !paired_by_addr.contains(&k))
             } else {
                 None
             };
@@ -400,13 +695,15 @@ pub fn run(sc: &Scenario) -> Outcome {
             };
             if by_nonce.is_none() {
                 paired_phantoms += 1;
+                paired_by_addr.insert(k);
             }
             let a = &accepted[k];
-            if Some(a.peer) != r.local {
+            // scope id / flowinfo are not part of the mirrored (ip, port) pair
+            if Some(norm(a.peer)) != r.local.map(norm) {
                 out.fail("accepted-peer-addr-differs-from-connector-local-addr", format!("connector {i}: {r:?}; accepted {a:?}"));
                 return out;
             }
-            if Some(a.local) != r.peer {
+            if Some(norm(a.local)) != r.peer.map(norm) {
                 out.fail("accepted-local-addr-differs-from-connector-peer-addr", format!("connector {i}: {r:?}; accepted {a:?}"));
                 return out;
             }
@@ -437,25 +734,70 @@ pub fn run(sc: &Scenario) -> Outcome {
                 return out;
             }
         }
-        // immediate refusals
+        // nobody listens there: refused as soon as the request arrives (or at once)
         if matches!(c.target, Target::DeadPort | Target::Nowhere) {
-            let may_be_held0 = fault_used && c.from == 1 && c.target == Target::DeadPort;
-            if r.ok || !may_be_held0 && r.kind == "TimedOut" && c.timeout_steps.map(|w| w as u64 > ceil_l + 3).unwrap_or(false) {
-                out.fail("connect-without-listener-not-refused", format!("connector {i} {c:?}: {r:?}"));
-                return out;
-            }
-            let may_be_held = fault_used && c.from == 1 && c.target == Target::DeadPort;
-            if !may_be_held && !r.ok && r.kind == "ConnectionRefused" && r.at_step > started[i] + ceil_l + 2 {
-                out.fail("refusal-too-late", format!("connector {i} {c:?} started {} refused at {}", started[i], r.at_step));
-                return out;
+            let st = started[i];
+            let due: Option<u64> = match (c.target, c.from) {
+                (Target::Nowhere, _) => Some(st),
+                (_, 0) => Some(st + 1),
+                _ => match fates.get(i).map(|f| f.0) {
+                    Some(Fate::Delivered { hi, .. }) => Some(hi),
+                    Some(Fate::Dropped { at }) => Some(at),
+                    _ => None,
+                },
+            };
+            if let Some(due) = due {
+                if r.kind == "TimedOut" && give_up.map(|g| g > due + 3).unwrap_or(false) {
+                    out.fail("connect-without-listener-not-refused", format!("connector {i} {c:?}: {r:?} (refusal due by step {due})"));
+                    return out;
+                }
+                if r.kind == "ConnectionRefused" && r.at_step > due + 2 {
+                    out.fail("refusal-too-late", format!("connector {i} {c:?} started {st} refused at {} (due by step {due})", r.at_step));
+                    return out;
+                }
             }
         }
-        // partition: connect started while c0->s is cut must be refused
-        if c.from == 1 && c.target == Target::Server {
+        // the link history decides what may happen to a request from c0 / c1
+        if let Some((fate, how)) = fates.get(i) {
             let st = started[i];
-            if cut_windows.iter().any(|(a, b2)| st >= *a && st <= *b2) && r.ok {
-                out.fail("connect-across-partition-succeeded", format!("connector {i} started at step {st}, cut windows {cut_windows:?}"));
-                return out;
+            match *fate {
+                Fate::Dropped { at } => {
+                    if r.ok {
+                        out.fail(
+                            "connect-across-partition-succeeded",
+                            format!("connector {i} {c:?} started at step {st}: its request was {how} (dropped by step {at}), link history {ops:?}; result {r:?}"),
+                        );
+                        return out;
+                    }
+                    if r.kind == "TimedOut" && give_up.map(|g| g > at + 2).unwrap_or(false) {
+                        out.fail(
+                            "connect-pending-across-partition-instead-of-refused",
+                            format!("connector {i} {c:?} started at step {st}: its request was {how} (dropped by step {at}), link history {ops:?}; still pending when it gave up at step {give_up:?}"),
+                        );
+                        return out;
+                    }
+                    if r.kind == "ConnectionRefused" && r.at_step > at + 2 {
+                        out.fail("refusal-too-late", format!("connector {i} {c:?} started {st}: request {how} by step {at}, refused only at step {} (link history {ops:?})", r.at_step));
+                        return out;
+                    }
+                }
+                Fate::Delivered { lo, .. } => {
+                    if r.ok && r.at_step < lo {
+                        out.fail(
+                            "connect-completed-before-its-request-could-arrive",
+                            format!("connector {i} {c:?} started at step {st}: request ({how}) cannot reach the server before step {lo}, connect returned Ok in step {} (link history {ops:?})", r.at_step),
+                        );
+                        return out;
+                    }
+                    if r.kind == "ConnectionRefused" && r.at_step < lo {
+                        out.fail(
+                            "connect-refused-before-its-request-could-arrive",
+                            format!("connector {i} {c:?} started at step {st}: request ({how}) cannot reach the server before step {lo} and no partition dropped it, refused in step {} (link history {ops:?})", r.at_step),
+                        );
+                        return out;
+                    }
+                }
+                Fate::Uncertain => {}
             }
         }
     }
@@ -468,24 +810,47 @@ pub fn run(sc: &Scenario) -> Outcome {
         return out;
     }
 
-    // ---------------- exact model (fixed latency >= 1 ms, no faults, fixed host order)
-    if exact {
+    // ---------------- exact step model of the listener timeline.  Remote
+    // requests: fixed latency >= 1 ms, fixed host order, delivery step known
+    // from the link history.  Same-host requests: always (they never touch a
+    // link); delivered by a task that sleeps one tick, i.e. in the first poll
+    // batch of the step after the connect call.
+    {
         let b_ = sc.bind_step as u64;
         let d_ = sc.drop_step.map(|d| d as u64);
         // a listener dropped before its accept step never accepts
         let s_ = if d_.map(|d| (sc.accept_step.max(sc.bind_step) as u64) < d).unwrap_or(true) { sc.accept_step.max(sc.bind_step) as u64 } else { u64::MAX / 2 };
         let r_ = sc.rebind_step.map(|r| r as u64);
         let mut expected_order: Vec<(u64, usize)> = Vec::new();
+        let mut local_checked = false;
         for (i, c) in &conns {
-            if !matches!(c.target, Target::Server | Target::Loopback) {
+            if !matches!(c.target, Target::Server | Target::Loopback | Target::DeadPort) {
                 continue;
             }
             let a = started[i];
-            // delivery step of the SYN at the server (start of its turn)
             let local = c.from == 0;
-            let j = if local { a + 1 } else { a + ceil_l.max(1) };
+            // sequenced by the server task: the order against the server's
+            // own action of the same step is exact
+            let seq = local && c.order != 0;
+            // delivery step of the SYN at the server
+            let j = if local {
+                a + 1
+            } else {
+                if !exact_remote {
+                    continue;
+                }
+                match fates.get(i).map(|f| f.0) {
+                    Some(Fate::Delivered { lo, hi }) if lo == hi => lo,
+                    _ => continue,
+                }
+            };
+            if local {
+                local_checked = true;
+            }
             // does the bind address match?
-            let addr_ok = if !sc.listen_localhost {
+            let addr_ok = if c.target == Target::DeadPort {
+                false
+            } else if !sc.listen_localhost {
                 true
             } else {
                 local && c.target == Target::Loopback
@@ -497,6 +862,12 @@ pub fn run(sc: &Scenario) -> Outcome {
                 Accepted,
                 Either,
             }
+            // A remote request is handed over at the start of the server's
+            // turn, before any server code of that step; a same-host request
+            // is handed over by a task in the first poll batch of step j,
+            // unordered against the server's own action of step j (sequenced
+            // connectors) or within a step of it (free-running connectors).
+            let near = |x: u64| if seq { j == x } else { j + 1 >= x && j <= x + 1 };
             let within_first = j > b_ && d_.map(|d| j <= d).unwrap_or(true);
             let within_second = match (d_, r_) {
                 (Some(_), Some(r)) => j > r,
@@ -516,22 +887,19 @@ pub fn run(sc: &Scenario) -> Outcome {
                 Exp::Accepted
             } else {
                 // boundary steps (delivery in the very step of bind / re-bind) can go either way
-                let near = |x: u64| j + 1 >= x && j <= x + 1;
-                if near(b_) || r_.map(near).unwrap_or(false) {
+                let near_remote = |x: u64| j + 1 >= x && j <= x + 1;
+                if !local && (near_remote(b_) || r_.map(near_remote).unwrap_or(false)) {
                     Exp::Either
                 } else {
                     Exp::Refused
                 }
             };
-            // loopback deliveries ride on a sleep(tick) task: one step of slack
-            if local && exp != Exp::Either {
-                let near = |x: u64| j + 1 >= x && j <= x + 1;
-                if near(b_) || d_.map(near).unwrap_or(false) || r_.map(near).unwrap_or(false) {
-                    exp = Exp::Either;
-                }
+            if local && addr_ok && exp != Exp::Either && (near(b_) || d_.map(near).unwrap_or(false) || r_.map(near).unwrap_or(false)) {
+                exp = Exp::Either;
             }
             // a connector that gives up
             let r = &results[i];
+            let by = d_.filter(|d| j <= *d).map(|d| d.max(j)).unwrap_or(j) + 2;
             if let Some(w) = c.timeout_steps {
                 let give_up = a + w as u64;
                 let acc_at = j.max(s_);
@@ -543,13 +911,23 @@ pub fn run(sc: &Scenario) -> Outcome {
                         out.fail("connect-still-pending-although-accepting-listener", format!("connector {i} {c:?}: gave up at step {give_up}, SYN delivered at {j}, accepting since {s_}"));
                         return out;
                     }
+                    if exp == Exp::Refused && give_up > by + 1 {
+                        out.fail(
+                            "connect-still-pending-although-nobody-can-accept-it",
+                            format!("connector {i} {c:?}: gave up at step {give_up}; SYN delivered at step {j}, refusal due by step {by} (bind {b_} accept {s_} drop {d_:?} rebind {r_:?})"),
+                        );
+                        return out;
+                    }
                     continue;
                 }
             }
             match exp {
                 Exp::Accepted => {
                     if !r.ok {
-                        out.fail("connect-refused-although-listener-accepting", format!("connector {i} {c:?} (SYN sent step {a}, delivered step {j}; bind {b_} accept {s_} drop {d_:?} rebind {r_:?}): {r:?}"));
+                        out.fail(
+                            "connect-refused-although-listener-accepting",
+                            format!("connector {i} {c:?} (connect called in step {a}, order {} against the server's own action of that step; SYN delivered step {j}; bind {b_} accept {s_} drop {d_:?} rebind {r_:?}): {r:?}", c.order),
+                        );
                         return out;
                     }
                     expected_order.push((j, *i));
@@ -560,7 +938,6 @@ pub fn run(sc: &Scenario) -> Outcome {
                         return out;
                     }
                     // promptness: refused no later than the drop / the delivery + 2 steps
-                    let by = d_.filter(|d| j <= *d).map(|d| d.max(j)).unwrap_or(j) + 2;
                     if r.kind == "ConnectionRefused" && r.at_step > by {
                         out.fail("refusal-too-late", format!("connector {i}: SYN delivered step {j}, refused at step {} (expected by {by})", r.at_step));
                         return out;
@@ -570,6 +947,15 @@ pub fn run(sc: &Scenario) -> Outcome {
                     if r.ok {
                         expected_order.push((j, *i));
                     }
+                }
+            }
+            if seq {
+                let same_step_as = |x: u64| a == x;
+                if same_step_as(b_) || r_.map(same_step_as).unwrap_or(false) {
+                    out.label(if c.order == 1 { "same-host:connect-just-before-bind" } else { "same-host:connect-just-after-bind" });
+                }
+                if d_.map(same_step_as).unwrap_or(false) {
+                    out.label(if c.order == 1 { "same-host:connect-just-before-listener-drop" } else { "same-host:connect-just-after-listener-drop" });
                 }
             }
         }
@@ -591,7 +977,12 @@ pub fn run(sc: &Scenario) -> Outcome {
                 }
             }
         }
-        out.label("exact-model");
+        if exact_remote {
+            out.label(if fault_used { "exact-model:with-link-history" } else { "exact-model" });
+        }
+        if local_checked {
+            out.label("exact-model:same-host");
+        }
     }
 
     // ---------------- stream counts back to baseline
@@ -619,12 +1010,19 @@ pub fn run(sc: &Scenario) -> Outcome {
     }
     if fault_used {
         out.label("hold-or-partition");
+        out.label(format!("link-history:{}-ops", sc.faults.len().min(4)));
     }
     if sc.listen_localhost {
         out.label("localhost-bind");
     }
     if conns.iter().any(|(_, c)| c.from == 0) {
         out.label("same-host-connector");
+    }
+    if conns.iter().any(|(_, c)| c.from == 0 && c.order != 0) {
+        out.label("same-host:sequenced");
+    }
+    if conns.iter().any(|(_, c)| c.scope != 0) {
+        out.label("v6-scope-id");
     }
     if sc.v6 {
         out.label("v6");
@@ -655,53 +1053,213 @@ pub fn run(sc: &Scenario) -> Outcome {
     out
 }
 
+fn conn_strategy() -> impl Strategy<Value = (Conn, u8)> {
+    (
+        0usize..3,
+        1u32..36,
+        prop_oneof![8 => Just(Target::Server), 3 => Just(Target::Loopback), 1 => Just(Target::DeadPort), 1 => Just(Target::Nowhere)],
+        prop_oneof![3 => Just(None), 1 => (0u32..14).prop_map(Some)],
+        prop_oneof![1 => Just(0u8), 2 => Just(1u8), 2 => Just(2u8)],
+        0u8..8,
+        prop_oneof![7 => Just(0u32), 1 => 1u32..5],
+    )
+        .prop_map(|(from, step, target, timeout_steps, order, snap, scope)| (Conn { from, step, target, timeout_steps, order, scope }, snap))
+}
+
 pub fn strategy() -> BoxedStrategy<Scenario> {
     let lat = prop_oneof![
         3 => (1u32..=8).prop_map(|v| (v, v)),
         2 => (0u32..=4, 1u32..=12).prop_map(|(a, d)| (a, a + d)),
     ];
+    // link-control histories: (anchored, [(time or offset, kind)])
+    let faults = prop_oneof![
+        8 => Just((false, Vec::<(i32, u8)>::new())),
+        1 => (2i32..30, 1i32..10).prop_map(|(a, d)| (false, vec![(a, 0u8), (a + d, 1u8)])),
+        1 => (2i32..30, 1i32..10).prop_map(|(a, d)| (false, vec![(a, 2u8), (a + d, 3u8)])),
+        // 1-4 hold / release / partition / repair calls in any order, placed
+        // around the start of the first connector (which is then on c0)
+        5 => proptest::collection::vec((-4i32..=10, 0u8..4), 1..=4).prop_map(|v| (true, v)),
+        // the request is parked by a hold set shortly before the connect (or
+        // caught in flight by one set right after it), then 1-3 more calls
+        3 => (-3i32..=0, proptest::collection::vec((0i32..=8, 0u8..4), 1..=3)).prop_map(|(h, mut v)| {
+            v.insert(0, (h, 0u8));
+            (true, v)
+        }),
+    ];
     (
         (1u32..=3, lat, any::<u64>(), any::<bool>(), prop_oneof![4 => Just(false), 1 => Just(true)], prop_oneof![4 => Just(false), 1 => Just(true)]),
         (1u32..12, 0u32..14, prop_oneof![1 => Just(None), 1 => (4u32..30).prop_map(Some)], prop_oneof![1 => Just(None), 1 => (1u32..12).prop_map(Some)]),
-        proptest::collection::vec(
-            (
-                0usize..3,
-                1u32..36,
-                prop_oneof![8 => Just(Target::Server), 2 => Just(Target::Loopback), 1 => Just(Target::DeadPort), 1 => Just(Target::Nowhere)],
-                prop_oneof![3 => Just(None), 1 => (0u32..14).prop_map(Some)],
-            ),
-            1..8,
-        ),
-        prop_oneof![
-            5 => Just(vec![]),
-            1 => (2u32..30, 1u32..10).prop_map(|(a, d)| vec![(a, 0u8), (a + d, 1u8)]),
-            1 => (2u32..30, 1u32..10).prop_map(|(a, d)| vec![(a, 2u8), (a + d, 3u8)]),
-        ],
+        proptest::collection::vec(conn_strategy(), 1..8),
+        faults,
     )
-        .prop_map(|((tick_ms, (lat_min, lat_max), seed, v6, random_order, listen_localhost), (bind_step, acc_off, drop_off, rebind_off), conns, faults)| {
+        .prop_map(|((tick_ms, (lat_min, lat_max), seed, v6, random_order, listen_localhost), (bind_step, acc_off, drop_off, rebind_off), conns, (anchored, fl))| {
             let accept_step = bind_step + acc_off;
             let drop_step = drop_off.map(|d| bind_step + d);
             let rebind_step = match (drop_step, rebind_off) {
                 (Some(d), Some(r)) => Some(d + r),
                 _ => None,
             };
-            Scenario {
-                tick_ms,
-                lat_min,
-                lat_max,
-                seed,
-                v6,
-                random_order,
-                listen_localhost,
-                bind_step,
-                accept_step,
-                drop_step,
-                rebind_step,
-                conns: conns.into_iter().map(|(from, step, target, timeout_steps)| Conn { from, step, target, timeout_steps }).collect(),
-                faults,
-            }
+            let mut conns: Vec<Conn> = conns
+                .into_iter()
+                .map(|(mut c, snap)| {
+                    // same-host connectors: often in the very step of a server action
+                    if c.from == 0 {
+                        match snap {
+                            4 => c.step = bind_step,
+                            5 => c.step = rebind_step.unwrap_or(bind_step),
+                            6 => c.step = drop_step.unwrap_or(bind_step),
+                            7 => c.step = bind_step.saturating_sub(1).max(1),
+                            _ => {}
+                        }
+                    }
+                    c
+                })
+                .collect();
+            let faults: Vec<(u32, u8)> = if anchored {
+                conns[0].from = 1;
+                if conns[0].target != Target::DeadPort {
+                    conns[0].target = Target::Server;
+                }
+                let a = conns[0].step as i32;
+                let mut f: Vec<(u32, u8)> = fl.into_iter().map(|(off, k)| ((a + off).max(0) as u32, k)).collect();
+                f.sort_by_key(|x| x.0);
+                f
+            } else {
+                fl.into_iter().map(|(t, k)| (t as u32, k)).collect()
+            };
+            Scenario { tick_ms, lat_min, lat_max, seed, v6, random_order, listen_localhost, bind_step, accept_step, drop_step, rebind_step, conns, faults, probe: None }
         })
         .boxed()
+}
+
+fn base_scenario() -> Scenario {
+    Scenario {
+        tick_ms: 1,
+        lat_min: 3,
+        lat_max: 3,
+        seed: 1,
+        v6: false,
+        random_order: false,
+        listen_localhost: false,
+        bind_step: 1,
+        accept_step: 1,
+        drop_step: None,
+        rebind_step: None,
+        conns: vec![],
+        faults: vec![],
+        probe: None,
+    }
+}
+
+/// Every link-control history of 1..=3 calls (hold / release / partition /
+/// repair) placed before the connect, while the request is on the link, and
+/// after it was due, around one connector on c0 (with and without a give-up
+/// deadline) and a second connector that starts after the history.
+fn link_history_space() -> Vec<Scenario> {
+    // connector at step 6, fixed latency 3 ticks: on the link during t = 6, 7, 8
+    let slots: [u32; 4] = [3, 6, 7, 10];
+    let mut v = Vec::new();
+    for n in 1..=3usize {
+        let mut idx = vec![0usize; n];
+        'kinds: loop {
+            // idx = kinds in base 4
+            let kinds: Vec<u8> = idx.iter().map(|k| *k as u8).collect();
+            // non-decreasing slot choices
+            let mut sl = vec![0usize; n];
+            'slots: loop {
+                if sl.windows(2).all(|w| w[0] <= w[1]) {
+                    for timeout in [None, Some(12u32)] {
+                        let mut sc = base_scenario();
+                        sc.faults = kinds.iter().zip(sl.iter()).map(|(k, s)| (slots[*s], *k)).collect();
+                        sc.conns = vec![
+                            Conn { from: 1, step: 6, target: Target::Server, timeout_steps: timeout, order: 0, scope: 0 },
+                            Conn { from: 1, step: 14, target: Target::Server, timeout_steps: None, order: 0, scope: 0 },
+                            Conn { from: 2, step: 6, target: Target::Server, timeout_steps: None, order: 0, scope: 0 },
+                        ];
+                        v.push(sc);
+                    }
+                }
+                let mut p = 0;
+                loop {
+                    if p == n {
+                        break 'slots;
+                    }
+                    sl[p] += 1;
+                    if sl[p] < slots.len() {
+                        break;
+                    }
+                    sl[p] = 0;
+                    p += 1;
+                }
+            }
+            let mut p = 0;
+            loop {
+                if p == n {
+                    break 'kinds;
+                }
+                idx[p] += 1;
+                if idx[p] < 4 {
+                    break;
+                }
+                idx[p] = 0;
+                p += 1;
+            }
+        }
+    }
+    v
+}
+
+/// Same-host connect against bind / re-bind / listener drop: every target
+/// (loopback, own address), bind address (wildcard, localhost), IP version,
+/// tick, position of the connect call relative to the server's action (two
+/// steps before .. two steps after, and within the same step just before /
+/// just after it).
+fn bind_order_space() -> Vec<Scenario> {
+    let mut v = Vec::new();
+    for v6 in [false, true] {
+        for listen_localhost in [false, true] {
+            for target in [Target::Loopback, Target::Server] {
+                for tick_ms in [1u32, 3] {
+                    // which server action the connect is placed against: 0 bind, 1 re-bind, 2 drop
+                    for against in 0..3u8 {
+                        for off in -2i32..=2 {
+                            for order in [1u8, 2] {
+                                for timeout in [None, Some(6u32)] {
+                                    let mut sc = base_scenario();
+                                    sc.v6 = v6;
+                                    sc.listen_localhost = listen_localhost;
+                                    sc.tick_ms = tick_ms;
+                                    sc.bind_step = 5;
+                                    sc.accept_step = 5;
+                                    if against > 0 {
+                                        sc.drop_step = Some(12);
+                                        sc.rebind_step = Some(16);
+                                    }
+                                    let at = match against {
+                                        0 => 5,
+                                        1 => 16,
+                                        _ => 12,
+                                    };
+                                    sc.conns = vec![Conn { from: 0, step: (at + off) as u32, target, timeout_steps: timeout, order, scope: 0 }];
+                                    v.push(sc);
+                                }
+                            }
+                        }
+                    }
+                }
+            }
+        }
+    }
+    v
+}
+
+/// Probe for F-C12-1: one connector whose destination carries a scope id.
+pub fn probe_scope_id() -> Scenario {
+    let mut sc = base_scenario();
+    sc.v6 = true;
+    sc.conns = vec![Conn { from: 1, step: 3, target: Target::Server, timeout_steps: None, order: 0, scope: 3 }];
+    sc.probe = Some("v6-scope-id".into());
+    sc
 }
 
 /// Clamp a structurally decoded scenario into the generator's domain (fuzz tier).
@@ -725,33 +1283,44 @@ pub fn fuzz_sanitize(sc: &mut Scenario) -> bool {
         c.from %= 3;
         c.step = 1 + c.step % 35;
         c.timeout_steps = c.timeout_steps.map(|w| w % 14);
+        c.order %= 3;
+        c.scope %= 5;
     }
-    let first = sc.faults.first().cloned();
-    sc.faults = match first {
-        Some((a, k)) => {
-            let base = 2 + a % 28;
-            let d = 1 + (a >> 8) % 9;
-            if k % 2 == 0 {
-                vec![(base, 0), (base + d, 1)]
-            } else {
-                vec![(base, 2), (base + d, 3)]
-            }
-        }
-        None => vec![],
-    };
+    // any history of up to 4 hold / release / partition / repair calls
+    sc.faults.truncate(4);
+    for f in sc.faults.iter_mut() {
+        f.0 %= 48;
+        f.1 %= 4;
+    }
+    sc.faults.sort_by_key(|f| f.0);
+    sc.probe = None;
     !sc.conns.is_empty()
 }
 
 fn check(tier: Tier, seed: u64) -> i32 {
     let ctx = Ctx::new("C12", tier, seed, "exploration");
     ctx.replay_corpus(&replay);
-    ctx.random("pairing", tier.pick(10_000, 150_000), &|| strategy(), &run);
+    let lh = link_history_space();
+    let lh_desc = format!(
+        "{} scenarios: every sequence of 1..=3 hold / release / partition / repair calls on the link c0-s, each placed before the connect, at one of two instants while the request is on the link (latency 3 ticks), or after it was due; one connector on c0 with and without a give-up deadline, a second one after the history, a control connector on c1; listener bound and accepting throughout",
+        lh.len()
+    );
+    ctx.exhaustive("link-histories", &lh_desc, Box::new(lh.into_iter()), &run);
+    let bo = bind_order_space();
+    let bo_desc = format!(
+        "{} scenarios: one same-host connector (127.0.0.1 / ::1 or the host's own address) x wildcard / localhost bind x v4 / v6 x tick 1 / 3 ms, its connect call issued by the server task two steps before .. two steps after a bind, a re-bind or a listener drop and, within the same step, just before or just after that action; with and without a give-up deadline",
+        bo.len()
+    );
+    ctx.exhaustive("bind-connect-order", &bo_desc, Box::new(bo.into_iter()), &run);
+    ctx.random("pairing", tier.pick(24_000, 300_000), &|| strategy(), &run);
     ctx.finish(
-        "random scenarios: a server timeline (bind, start accepting, optional listener drop and re-bind) and 1-7 connectors on the server's own host (own address, 127.0.0.1/::1) and on two remote hosts, started at generated steps, some giving up after a generated number of steps, some aimed at a dead port or an address nobody owns; wildcard or localhost bind, v4/v6, fixed or ranged latency, hold/release or partition/repair around the handshake, random host order. Every successful connector writes its index, every accepted stream reads it. Oracle: nonce bijection (each success accepted exactly once, accepted streams without a connector only for connectors that gave up), mirrored addresses, ConnectionRefused for dead ports / unknown addresses / cut direction / localhost listeners, no connect left pending, stream counts back to 0 after all streams were dropped; for fixed latency >= 1 ms without faults an exact step-level model of the listener timeline decides accept-vs-refuse, refusal promptness and accept order = arrival order. Non-trivial = >= 2 connectors pending at once and >= 1 refusal or give-up. Distinct by scenario hash.",
+        "random scenarios: a server timeline (bind, start accepting, optional listener drop and re-bind) and 1-7 connectors on the server's own host (own address, 127.0.0.1/::1; free-running, or issued by the server task itself just before / just after its own bind / drop / re-bind of the same step) and on two remote hosts, started at generated steps, some giving up after a generated number of steps, some aimed at a dead port or an address nobody owns; wildcard or localhost bind, v4/v6 (v6 destinations optionally as SocketAddrV6 with a scope id unless F-C12-1 is recorded as known), fixed or ranged latency, a history of up to 4 hold / release / partition / repair calls in any order around the first connector's request (or a hold/release or partition/repair pair anywhere), random host order; plus two bounded-exhaustive families (link histories around one pending connect; same-host connect against bind / re-bind / drop). Every successful connector writes its index, every accepted stream reads it. Oracle: nonce bijection (each success accepted exactly once, accepted streams without a connector only for connectors that gave up), mirrored addresses, ConnectionRefused for dead ports / unknown addresses / localhost listeners, no connect left pending, stream counts back to 0 after all streams were dropped; a model of the link history decides for every request from c0 whether it is dropped by a partition (sent into one, or in flight / parked by a hold when it is set: the connect must be refused, promptly, never succeed, never stay pending), parked until a release, or delivered in a known step range (no Ok and no refusal before that), leaving open what the documentation leaves open; an exact step-level model of the listener timeline decides accept-vs-refuse, refusal promptness and accept order = arrival order for remote requests under fixed latency >= 1 ms and fixed host order, and for same-host requests always (delivered in the step after the connect call: the listener state at that step counts, not the state when connect was called). Non-trivial = >= 2 connectors pending at once and >= 1 refusal or give-up. Distinct by scenario hash.",
         &[
             "pending requests stay far below tcp_capacity (64)",
-            "events that fall in the very step of a bind / drop / re-bind, or within 2 steps of a give-up, are admitted either way (documented race)",
+            "events that fall in the very step of a bind / drop / re-bind (free-running same-host connectors: within one step of it), or within 2 steps of a give-up, are admitted either way (documented race)",
             "accept order is only asserted for remote connectors whose SYNs are delivered at least 2 steps apart, under fixed latency",
+            "link conditions the rustdoc leaves open are not asserted: whether a hold survives partition / repair, whether a partition survives hold / release, whether repair lets parked messages go, hold / partition at the very instant of a release or while the request may already have been delivered",
+            "only two-way partition / repair (the one-way variants are documented as unsupported together with hold)",
         ],
     )
 }
